@@ -4,6 +4,8 @@ import (
 	"bytes"
 	"encoding/binary"
 	"fmt"
+	"strconv"
+	"strings"
 
 	xh2 "golang.org/x/net/http2"
 )
@@ -56,27 +58,45 @@ type Frame struct {
 }
 
 func (f *Frame) String() string {
-	s := fmt.Sprintf("%s s=%d len=%d", ftName(f.Type), f.Stream, f.Len)
+	var sb strings.Builder
+	sb.WriteString(ftName(f.Type))
+	sb.WriteString(" s=")
+	sb.WriteString(strconv.Itoa(int(f.Stream)))
+	sb.WriteString(" len=")
+	sb.WriteString(strconv.Itoa(f.Len))
+	b2s := func(b bool) string {
+		if b {
+			return "true"
+		}
+		return "false"
+	}
 	switch f.Type {
 	case FData:
-		s += fmt.Sprintf(" data=%d es=%v", len(f.Data), f.EndStream)
+		sb.WriteString(" data=" + strconv.Itoa(len(f.Data)) + " es=" + b2s(f.EndStream))
 	case FHeaders, FContinuation:
-		s += fmt.Sprintf(" blk=%d es=%v eh=%v", len(f.Block), f.EndStream, f.EndHeaders)
+		sb.WriteString(" blk=" + strconv.Itoa(len(f.Block)) + " es=" + b2s(f.EndStream) + " eh=" + b2s(f.EndHeaders))
 	case FRST:
-		s += fmt.Sprintf(" code=%s", xh2.ErrCode(f.Code))
+		sb.WriteString(" code=" + xh2.ErrCode(f.Code).String())
 	case FGoAway:
-		s += fmt.Sprintf(" last=%d code=%s debug=%q", f.LastStream, xh2.ErrCode(f.Code), f.Debug)
+		sb.WriteString(" last=" + strconv.Itoa(int(f.LastStream)) + " code=" + xh2.ErrCode(f.Code).String() + " debug=" + strconv.Quote(string(f.Debug)))
 	case FWindowUpdate:
-		s += fmt.Sprintf(" incr=%d", f.Incr)
+		sb.WriteString(" incr=" + strconv.Itoa(int(f.Incr)))
 	case FSettings:
-		s += fmt.Sprintf(" ack=%v %v", f.Ack, f.Settings)
+		sb.WriteString(" ack=" + b2s(f.Ack) + " [")
+		for i, s := range f.Settings {
+			if i > 0 {
+				sb.WriteString(" ")
+			}
+			sb.WriteString("[" + s.ID.String() + " = " + strconv.Itoa(int(s.Val)) + "]")
+		}
+		sb.WriteString("]")
 	case FPing:
-		s += fmt.Sprintf(" ack=%v", f.Ack)
+		sb.WriteString(" ack=" + b2s(f.Ack))
 	}
 	if f.Err != "" {
-		s += " ERR=" + f.Err
+		sb.WriteString(" ERR=" + f.Err)
 	}
-	return s
+	return sb.String()
 }
 
 // FrameReader turns the byte stream the system wrote into frames, using the x/net framer per frame.
